@@ -277,8 +277,12 @@ def exhaustive_small_graphs(tier, shard, nshards):
                 yield n, D, list(y)
 
 
-def int_vec(rng, kind, n, zeros_ok):
-    """Integer-valued vector of the domain (to be passed as an int32/int64 array): R up to +-1e5, N/P up to 1000."""
+def int_vec(rng, kind, n, zeros_ok, narrow=False):
+    """Integer-valued vector of the domain (to be passed as an int32/int64 array): R up to +-1e5, N/P up to 1000.
+    narrow=True: values 0..250 (fits uint8 / uint16; 0..120 also fits int8)."""
+    if narrow:
+        lo = 0 if (kind in ("R", "N") or zeros_ok) else 1
+        return rng.integers(lo, 121, size=n) if rng.random() < 0.5 else rng.integers(lo, 251, size=n)
     if kind == "R":
         return rng.integers(-100000, 100001, size=n) if rng.random() < 0.5 else rng.integers(-5, 6, size=n)
     lo = 0 if (kind == "N" or zeros_ok) else 1
